@@ -224,8 +224,9 @@ Print Assumptions cashaddr_checksum_unique.
    [data_corrupted sep n s1 s2]: after lower-casing (as the decoders do) s1 = h ++ sep :: t1 and
    s2 = h ++ sep :: t2 with sep not in t1 (so h is s1's HRP), |t1| = |t2| <= n and 1 <= hamming t1 t2 <= 4:
    s2 is s1 with one to four data-part characters replaced by anything.
-   The proofs rest on a distance certificate evaluated by the kernel (vm) on the generator words regenerated
-   from the PolyMod bodies: Lemmas/Bech32CertB32.v (window 89) and Lemmas/Bech32CertCash.v (window 160). *)
+   The proofs rest on distance certificates evaluated by the kernel on the generator words regenerated
+   from the PolyMod bodies: Lemmas/Bech32CertB32.v (window 89) and Lemmas/Bech32CertCash.v (window 160);
+   soundness of the certificate (linearity, anchoring, symbol-scaling symmetry) is Lemmas/Bech32Detect.v. *)
 Notation hamming := Lemmas.Bech32Detect.hamming.
 Notation data_corrupted := Lemmas.Bech32Cert.data_corrupted.        (* 1..4 characters *)
 Notation data_corrupted_n := Lemmas.Bech32Cert.data_corrupted_n.    (* 1..k characters *)
@@ -287,9 +288,10 @@ Theorem segwit_detects_4_partial : forall hrp s1 s2 v1 p1 n, segwit_decode hrp s
 Proof. exact Lemmas.Bech32Cert.segwit_detects_4_err. Qed.
 Print Assumptions segwit_detects_4_partial.
 
-(* and up to THREE substitutions are always detected, also across the two constants: a second certificate
-   (Lemmas/Bech32CertX.v) shows that within 72 symbols no pattern of 1..3 symbols has the syndrome
-   (Bech32 constant) xor (Bech32m constant) *)
+(* and up to THREE substitutions are always detected, also across the two constants: a switch changes the
+   version symbol, the version-0 side has 38 or 58 symbols after it, and two further certificates
+   (Lemmas/Bech32CertX.v) show that for these lengths a changed first symbol plus at most two other changed
+   symbols never shifts the final state by (Bech32 constant) xor (Bech32m constant) *)
 Theorem segwit_detects_3 : forall hrp s1 s2 v1 p1 n, segwit_decode hrp s1 = Ok (v1, p1) ->
   data_corrupted_n 3 segwit_sep n s1 s2 ->
   exists e, segwit_decode hrp s2 = Err e /\ (e = ValueError \/ e = LibError Bech32ChecksumError).
